@@ -474,6 +474,9 @@ class Interp:
         if _overloaded(a) or _overloaded(b):
             recv, other, name = (a, b, _DUNDER[op]) if _overloaded(a) else (b, a, _RDUNDER[op])
             return self.call_method(recv, name, [other], {})
+        issym = lambda v: isinstance(v, TheoryObj) and v.theory == "symiter"
+        if op == "+" and (issym(a) or issym(b)) and all(issym(v) or isinstance(v, PList) for v in (a, b)):
+            return self.symiter_concat(a, b)
         if op == "%" and pyops.is_strlike(a):
             return SStr(self.ctx.fresh_str("pct"))
         return pyops.py_binop(op, a, b, self.ctx)
@@ -940,6 +943,28 @@ class Interp:
                 # generator over a collection of unknown size: consumed by any()/all() (see pybuiltins)
                 return TheoryObj("symgen", fields={"node": node, "env": env, "iter": itv})
         return PList(self._comp(node, env, lambda e: self.eval(node.elt, e)))
+
+    def symiter_concat(self, a, b):
+        """l1 + l2 where at least one side is a list of unknown size: an arbitrary element of the result is an arbitrary
+        element of one of the sides (order is not modelled)"""
+        sides = [a, b]
+
+        def ne_of(v):
+            return self.symiter_nonempty(v) if isinstance(v, TheoryObj) else z3.BoolVal(len(v.items) > 0)
+        out = TheoryObj("symiter", fields={"witnesses": [w for v in sides if isinstance(v, TheoryObj) for w in v.fields.get("witnesses", [])],
+                                           "nonempty": z3.Or(ne_of(a), ne_of(b)), "parts": sides})
+
+        def mk(I):
+            k = I.ctx.choose(2, "concat-side")
+            v = sides[k]
+            if isinstance(v, TheoryObj):
+                I.ctx.assume(ne_of(v))
+                return v.fields["mk"](I)
+            if not v.items:
+                raise PathEnd()
+            return v.items[I.ctx.choose(len(v.items), "concat-item")]
+        out.fields["mk"] = mk
+        return out
 
     def symiter_nonempty(self, it: TheoryObj):
         """z3 Bool: the collection has at least one element (free, except that a member witness implies it)."""
